@@ -406,6 +406,9 @@ def boundary_probes(rng: random.Random, s: State) -> list[str]:
         out.append(f'burn {_cards_text(list(s.deck_cards)[:2])}')
     if any(s.standing_pat_or_discarding_statuses) and s.deck_cards:
         out.append(f'draw {repr(s.deck_cards[0])}')
+        own = s.hole_cards[s.stander_pat_or_discarder_index]
+        if own:
+            out.append(f'draw {repr(own[0])}{repr(own[0])}')      # the same card named twice
     if s.actor_indices:
         try:
             mn = s.min_completion_betting_or_raising_to_amount
